@@ -30,7 +30,7 @@ func propC01(c *Ctx) {
 	insBlocks := ins.Call.Args[3]
 	c.Check("R1.1", "Converge/insert-gets-loaded-slice", ins.Pos(), loaded != nil && stripConv(m.reg.Resolve(stripConv(insBlocks))) == loaded,
 		"the blocks argument of insert is result #0 of load")
-	checkPositionFromLastInserted(c, "R1.1", upd, m.reg.Resolve(insBlocks))
+	checkPositionFromLastInserted(c, "R1.1", upd, insBlocks, m.reg.Resolve)
 	c.Check("R1.1", "Converge/update-after-insert", upd.Pos(), m.dom(ins, upd) && m.dom(ld, ins), "load → insert → update execute in this order on every path")
 
 	c.Rule("R1.2", "the loaded range starts at recorded position + 1 and is linked against the hash recorded with that position", 2)
@@ -700,7 +700,7 @@ func loadStartsAfterPosition(m *convergeModel, ld *ssa.Call) (bool, int) {
 // checkPositionFromLastInserted: the number and hash handed to the cursor update are Num() and Hash() of the
 // last element of the inserted slice (shared by C01 – the position is the last block written – and C03 – the
 // hash the next step's parent comparison runs against is that of the block whose rows were written).
-func checkPositionFromLastInserted(c *Ctx, rule string, upd *ssa.Call, insBlocks ssa.Value) {
+func checkPositionFromLastInserted(c *Ctx, rule string, upd *ssa.Call, insBlocks ssa.Value, resolve func(ssa.Value) ssa.Value) {
 	for _, spec := range []struct {
 		arg  int
 		meth string
@@ -710,7 +710,7 @@ func checkPositionFromLastInserted(c *Ctx, rule string, upd *ssa.Call, insBlocks
 		detail := "update argument is not eth.Block." + spec.meth + "() of a slice element"
 		if ok {
 			s, idx, ok2 := elemOf(recv)
-			if ok2 && sameVar(s, insBlocks) && isLenMinus1(idx, s) {
+			if ok2 && (sameVar(s, insBlocks) || sameVar(stripConv(resolve(stripConv(s))), stripConv(resolve(stripConv(insBlocks))))) && isLenMinus1(idx, s) {
 				good = true
 				detail = "update receives " + spec.meth + "() of blocks[len(blocks)-1] of the inserted slice"
 			} else if ok2 {
